@@ -9,7 +9,9 @@ from more_executors._impl.futures import f_return
 
 LAYERS = ("map", "flat_map", "retry", "throttle", "timeout", "poll", "cancel_on_shutdown")
 THREADED = {"retry": "RetryExecutor", "poll": "PollExecutor", "throttle": "ThrottleExecutor", "timeout": "TimeoutExecutor"}
-CALLABLES = ("function", "partial_kw", "partial_pos", "object", "object_func", "falsy_object", "future_returning")
+CALLABLES = ("function", "partial_kw", "partial_pos", "object", "object_func", "falsy_object", "future_returning",
+             "attr_function", "bound_other")
+FUTURE_RETURNING = ("future_returning", "bound_other")
 ARGS = ((), (1,), (1, 2))
 
 
@@ -87,6 +89,16 @@ def make_callable(kind, log):
         return fc
     if kind == "future_returning":
         return fut
+    if kind == "attr_function":
+        # a function carrying attributes of its own, some spelt like the library's private ones
+        plain._name = "fn-attr-name"
+        plain._executor = "not an executor"
+        plain.calls = 0
+        return plain
+    if kind == "bound_other":
+        # a future-returning callable *object*: another executor's bound callable
+        other = Executors.sync(name="other")
+        return other.bind(plain)
 
 
 def _chains(maxtotal, maxeach):
@@ -106,7 +118,7 @@ def _params(maxtotal, maxeach, callables=CALLABLES):
     for pre, post in _chains(maxtotal, maxeach):
         for c in callables:
             for flat in (False, True):
-                if flat and c != "future_returning":
+                if flat and c not in FUTURE_RETURNING:
                     continue
                 # one argument list per cell, rotating, keeps the product tractable
                 out.append(dict(pre=pre, post=post, callable=c, flat=flat, args=ARGS[(len(out)) % 3],
@@ -170,7 +182,7 @@ def check(x):
               detail="pre=%r post=%r bound %r vs submit %r" % (p["pre"], p["post"], x.obs["bound"], x.obs["plain"]))
     x.require(x.obs["log_bound"] == x.obs["log_plain"], "invocations-differ", callable=p["callable"],
               detail="bound %r vs submit %r" % (x.obs["log_bound"], x.obs["log_plain"]))
-    if (p["flat"] and not p["pre"]) or p["callable"] != "future_returning":
+    if (p["flat"] and not p["pre"]) or p["callable"] not in FUTURE_RETURNING:
         s = x.obs["plain"]
         x.require(s[0] == "ok" and "<Future>" not in repr(s[1]), "future-not-flattened", detail=repr(s))
     for name, exc in x.deaths:
@@ -196,6 +208,8 @@ def _nparams():
                         if n == 3 and (base == "tp" or bind_at not in (None, 1)):
                             continue
                         out.append(dict(layers=layers, explicit=explicit, bind_at=bind_at, base=base, flat=False))
+                        if bind_at is not None and base == "sync" and n <= 2:
+                            out.append(dict(layers=layers, explicit=explicit, bind_at=bind_at, base=base, flat=False, fnattr=True))
                         if bind_at is not None and base == "sync":
                             out.append(dict(layers=layers, explicit=explicit, bind_at=bind_at, base=base, flat=True))
     # a base executor without any name attribute (plain stdlib pool): layers get the default name
@@ -234,9 +248,13 @@ def nbody(mc, p):
     cur = ex
     expected = []
     inherited = "nb"
+    def plainfn():
+        return "v"
+    if p.get("fnattr"):
+        plainfn._name = "fn-attr-name"
     for i, l in enumerate(layers):
         if p["bind_at"] == i:
-            cur = cur.flat_bind(lambda: f_return("v")) if p["flat"] else cur.bind(lambda: "v")
+            cur = cur.flat_bind(lambda: f_return("v")) if p["flat"] else cur.bind(plainfn)
         name = None
         if p["explicit"] == i:
             name = "nx"
@@ -270,6 +288,7 @@ def ncheck(x):
     p = x.p
     x.require(x.obs["names"] == x.obs["expected"], "thread-name-not-inherited",
               via_bind=p["bind_at"] is not None and p["bind_at"] < len(p["layers"]), explicit=p["explicit"] is not None,
+              fnattr=bool(p.get("fnattr")),
               detail="layers=%r explicit@%r bind@%r: threads %r expected %r" % (p["layers"], p["explicit"], p["bind_at"], x.obs["names"], x.obs["expected"]))
 
 
